@@ -1006,6 +1006,24 @@ func (e *Env) call(x *ECall) *SV {
 		return e.boolSV("(> " + arg(0).S + " " + e.old.alloc + ")")
 	case "allocated":
 		return e.boolSV("(and (> " + arg(0).S + " 0) (<= " + arg(0).S + " " + e.st.alloc + "))")
+	case "crc32of":
+		c.declCRC()
+		return &SV{S: "(ext.crc32 " + arg(0).S + ")", T: types.Typ[types.Uint32]}
+	case "sameExcept":
+		// sameExcept(<heap designator>, b, lo, hi): the element heap is unchanged except b[lo:hi]
+		if e.old == nil {
+			specFail("sameExcept() needs an entry state")
+		}
+		con := &Contract{Modifies: []string{x.Args[0].String()}}
+		b := arg(1)
+		var parts []string
+		for _, k := range sortedKeys(c.modifiesKeys(con, e.pkg)) {
+			cur := c.heapGet(e.st, k, c.heapSortsM[k])
+			old := c.heapGet(e.old, k, c.heapSortsM[k])
+			c.uses["quant"] = true
+			parts = append(parts, fmt.Sprintf("(forall ((r! Int) (j! Int)) (! (=> (not (and (= r! (s-ref %[1]s)) (<= (+ (s-off %[1]s) %[2]s) j!) (< j! (+ (s-off %[1]s) %[3]s)))) (= (select (select %[4]s r!) j!) (select (select %[5]s r!) j!))) :pattern ((select (select %[4]s r!) j!))))", b.S, arg(2).S, arg(3).S, cur, old))
+		}
+		return e.boolSV(and(parts...))
 	case "bytestr":
 		// bytestr(b): the string with the bytes of slice b
 		c.declBytestr()
@@ -1219,8 +1237,16 @@ func (c *Ctx) defineSpec(sf *SpecFunc, spkg *types.Package, resT types.Type) *sp
 			c.declareConst("spec."+sf.Name, rs)
 		} else {
 			c.declareFun("spec."+sf.Name, sorts, rs)
+			var names []string
+			for _, hk := range inst.heaps {
+				names = append(names, "hp."+hk)
+			}
+			for _, p := range sf.Params {
+				names = append(names, "a."+sanitize(p.Name))
+			}
+			app := "(spec." + sf.Name + " " + strings.Join(names, " ") + ")"
+			inst.recAxiom = fmt.Sprintf("(forall (%s) (! (= %s %s) :pattern (%s)))", strings.Join(append(hp, params...), " "), app, bodyS, app)
 		}
-		_ = bodyS
 	} else {
 		c.decls = append(c.decls, fmt.Sprintf("(define-fun spec.%s (%s) %s %s)", sf.Name, strings.Join(append(hp, params...), " "), rs, bodyS))
 	}
